@@ -30,14 +30,14 @@ ASSUMPTIONS = ['gain = l1 upper bound of the largest absolute row sum (>= the tr
                'than the statement)', 'torch .double()/.float() semantics for buffers/parameters']
 TIMEOUT = {'quick': 900, 'thorough': 3300}
 WORKER_BUDGET = {'quick': 600, 'thorough': 2700}
-MIN_HELD = {'quick': 500, 'thorough': 5000}
+MIN_HELD = {'quick': 500, 'thorough': 2500}
 IN_KINDS = ['randn', 'dynrange', 'const', 'outlier', 'ramp']
 
 
 def cells(tier, seed):
     rnd = core.rng_for(seed, PROP, tier)
     out = []
-    n = 26 if tier == 'quick' else 300
+    n = 26 if tier == 'quick' else 800
     for kind in adapters.ALL_KINDS:
         for _ in range(n):
             c = adapters.random_config(kind, rnd)
